@@ -69,7 +69,7 @@ CLAIMS = {
                      "model, hole position in the SQL / Python skeleton), CFG must-pass-through for the validation and residual gates, "
                      "dispatch exhaustiveness, comparator table over sibling matchers",
         "text": TXT + "Decides: every client-derived piece reaching SQL text or exec()'d source carries a mark adequate for its syntactic "
-                "position (HEX derived from ids_are_hex, INT from annotations, quote-doubling, !r); only validated filters reach a "
+                "position (HEX derived from ids_are_hex, INT from annotations, quote-doubling plus colon-escaping for statements that go through sqlalchemy.text(), !r); every tag member of a filter adds a clause or voids the filter; only validated filters reach a "
                 "subscription and a client 'tags' key cannot survive; every LMDB result passed the residual compiled from the complete "
                 "condition list; since/until bound created_at in the right direction in all three matchers.",
         "not_decided": "semantic NIP-01 equivalence of the assembled WHERE clause / index scans; that the store holds only accepted events.",
